@@ -26,6 +26,12 @@ def make_exc(key, cls, *args):
     return e
 
 
+def make_exc_named(key, clsname, *args):
+    """make_exc with the class given by name (the pipeline module holds no class-valued variable)."""
+    cls = {"CustomError": CustomError, "CustomBase": CustomBase}.get(clsname) or getattr(__import__("builtins"), clsname)
+    return make_exc(key, cls, *args)
+
+
 def call0(f):
     """Higher-order use of a function object from untracked code."""
     return f()
